@@ -55,64 +55,125 @@ def run(ctx):
         parts = _parts(ls[0])
         return ctx.driver("judge", [parts["J"]])[0], parts
 
-    # ---- corpus first, then generated histories
+    # ---- corpus first, then exhaustive small scope, then generated histories; processed in chunks
+    stats, hstats = collections.Counter(), {}
+    clause_count, first_by_clause = collections.Counter(), {}
+    tot = {"cases": 0, "diffs": 0, "prefix": 0, "both": 0, "corpus": 0, "exhaustive": 0}
+    prefix_case = [None]
+    tmpl_seen = [None]
+    distinct, nontrivial, samples = set(), set(), []
+
+    def process(lines, label):
+        cases = []
+        for l in lines:
+            if l.startswith("T "):
+                tmpl_seen[0] = l[2:]
+            elif l.startswith("STATS "):
+                for k, v in json.loads(l[6:]).items():
+                    if isinstance(v, dict):
+                        d = hstats.setdefault(k, collections.Counter())
+                        for kk, vv in v.items():
+                            d[kk] += vv
+                    elif k.startswith("Max"):
+                        hstats[k] = max(hstats.get(k, 0), v)
+                    else:
+                        hstats[k] = hstats.get(k, 0) + v
+            elif l.startswith("M "):
+                cases.append(_parts(l))
+            elif l.startswith("X "):
+                stats[label + "_not_applicable"] += 1
+        if not cases:
+            return
+        tot["cases"] += len(cases)
+        tot[label] = tot.get(label, 0) + len(cases)
+        if len(samples) < 6:
+            samples.extend(c["H"] for c in cases[:2])
+        # the property, evaluated by the Lean judge on the listings of the real cluster
+        verdicts = ctx.driver("judge", [c["J"] for c in cases])
+        for c, v in zip(cases, verdicts):
+            distinct.add(c["H"] + "|" + c["M"].split(" ")[0])
+            if c["O"].count(";") >= 2 and "nginx-gateway-2" in c["O"]:
+                nontrivial.add(c["H"] + "|" + c["M"].split(" ")[0])
+            if v == "ok":
+                continue
+            if v == "ok precondition":
+                stats["startup_without_configured_class(precondition)"] += 1
+                continue
+            if v == "bad-op":
+                ctx.broken("judge cannot decode the harness output", replay={"judge_input": c["J"][:2000]})
+                continue
+            for clause in v[5:].split(","):
+                clause_count[clause] += 1
+                if clause not in first_by_clause or len(c["H"]) < len(first_by_clause[clause]["H"]):
+                    first_by_clause[clause] = c
+        # correspondence: the model of the code in the tree (`step`) predicts every observation; a handler that behaves
+        # like the pre-fix removal loop (`stepPreFix`) instead is the regression C18:deployment-kept-after-class-change
+        outs = ctx.driver("model", [c["M"] for c in cases])
+        for c, out in zip(cases, outs):
+            if out == "bad-op":
+                ctx.broken("model cannot decode the harness history", replay={"model_input": c["M"][:2000]})
+                tot["diffs"] += 1
+                continue
+            primary, prefix = out.split(" ## ")
+            d = _diff(c["O"], primary)
+            if d is None:
+                if primary == prefix:
+                    tot["both"] += 1
+                continue
+            tot["diffs"] += 1
+            if _diff(c["O"], prefix) is None:
+                tot["prefix"] += 1
+                if prefix_case[0] is None or len(c["H"]) < len(prefix_case[0]["H"]):
+                    prefix_case[0] = c
+            if tot["diffs"] <= 3:
+                i, k = d
+                ob, mb = c["O"].split(";"), primary.split(";")
+                ctx.broken(f"model and implementation disagree at batch {i} field {k} of history [{c['H']}]"
+                           + (" (the implementation matches the PRE-FIX removal loop)" if _diff(c["O"], prefix) is None else ""),
+                           replay={"ops": c["H"], "gc": c["M"].split(" ")[0][3:], "batch": i, "field": k,
+                                   "impl": _fields(ob[i]).get(k) if i < len(ob) else None,
+                                   "model": _fields(mb[i]).get(k) if i < len(mb) else None})
+
     corpus_lines = []
     for fn, text in vcheck.corpus("C18"):
         corpus_lines += [l for l in text.splitlines() if l.strip() and not l.startswith("#")]
-    lines = []
     if corpus_lines:
         p = os.path.join(tmpdir, "corpus.ops")
         open(p, "w").write("\n".join(corpus_lines) + "\n")
-        lines += harness(["-opsfile", p])
-    n_corpus = len([l for l in lines if l.startswith("M ")])
-    lines += harness(["-seed", ctx.seed, "-n", n, "-maxbatches", maxb])
+        process(harness(["-opsfile", p]), "corpus")
     if not getattr(ctx, "harness_ok", False):
         ctx.broken("harness does not build against the current tree", detail="\n".join(ctx.build_errors))
+    else:
+        process(harness(["-exhaustive", 3 if ctx.tier == "quick" else 5]), "exhaustive")
+        chunk, done, i = 1000, 0, 0
+        known_sigs = {k["signature"] for k in vcheck.load_known().get("C18", [])}
 
-    stats, tmpl_seen, cases = collections.Counter(), None, []
-    hstats = {}
-    for l in lines:
-        if l.startswith("T "):
-            tmpl_seen = l[2:]
-        elif l.startswith("STATS "):
-            for k, v in json.loads(l[6:]).items():
-                if isinstance(v, dict):
-                    d = hstats.setdefault(k, collections.Counter())
-                    for kk, vv in v.items():
-                        d[kk] += vv
-                elif k.startswith("Max"):
-                    hstats[k] = max(hstats.get(k, 0), v)
-                else:
-                    hstats[k] = hstats.get(k, 0) + v
-        elif l.startswith("M "):
-            cases.append(_parts(l))
-        elif l.startswith("X "):
-            stats["corpus_not_applicable"] += 1
+        def unlisted_failure():
+            return any("C18:" + cl not in known_sigs for cl in clause_count)
 
-    # ---- tie: the template args the translator read from the manifest are the ones the real YAML decoder yields
-    facts_tmpl = ctx.facts.get("ProvisionerFacts.templateArgs")
-    if tmpl_seen is None or tmpl_seen.startswith("error"):
-        ctx.broken(f"static deployment manifest does not decode: {tmpl_seen}")
-    elif facts_tmpl is not None and "|".join(facts_tmpl) != tmpl_seen:
-        ctx.broken("translator and yaml.Unmarshal disagree on the container args of the static deployment manifest",
-                   replay={"translator": facts_tmpl, "yaml": tmpl_seen})
+        while done < n and not (tot["diffs"] >= 12 and unlisted_failure()):
+            m = min(chunk, n - done)
+            process(harness(["-seed", ctx.seed + 7919 * i, "-n", m, "-maxbatches", maxb]), "generated")
+            done += m
+            i += 1
+        if (tot["diffs"] or ctx.brokens) and not unlisted_failure():
+            # a tie is broken but the judge has not failed yet: search harder before finishing
+            ctx.log("broken tie without a judge failure so far: searching harder (deeper exhaustive scope, more histories)")
+            if ctx.tier == "quick":
+                process(harness(["-exhaustive", 4]), "exhaustive")
+            extra = 0
+            while extra < 3000 and not unlisted_failure():
+                process(harness(["-seed", ctx.seed + 104729 + 7919 * i, "-n", 1000, "-maxbatches", 16]), "generated")
+                extra += 1000
+                i += 1
 
-    # ---- the property, evaluated by the Lean judge on the listings of the real cluster
-    verdicts = ctx.driver("judge", [c["J"] for c in cases])
-    clause_count = collections.Counter()
-    first_by_clause = {}
-    for c, v in zip(cases, verdicts):
-        if v == "ok":
-            continue
-        if v == "ok precondition":
-            stats["startup_without_configured_class(precondition)"] += 1
-            continue
-        if v == "bad-op":
-            ctx.broken("judge cannot decode the harness output", replay={"judge_input": c["J"][:2000]})
-            continue
-        for clause in v[5:].split(","):
-            clause_count[clause] += 1
-            first_by_clause.setdefault(clause, c)
+        # tie: the template args the translator read from the manifest are the ones the real YAML decoder yields
+        facts_tmpl = ctx.facts.get("ProvisionerFacts.templateArgs")
+        if tmpl_seen[0] is None or tmpl_seen[0].startswith("error"):
+            ctx.broken(f"static deployment manifest does not decode: {tmpl_seen[0]}")
+        elif facts_tmpl is None or "|".join(facts_tmpl) != tmpl_seen[0]:
+            ctx.broken("translator and yaml.Unmarshal disagree on the container args of the static deployment manifest",
+                       replay={"translator": facts_tmpl, "yaml": tmpl_seen[0]})
 
     known = {k["signature"] for k in vcheck.load_known().get("C18", [])}
     for clause, c in first_by_clause.items():
@@ -121,41 +182,22 @@ def run(ctx):
         if sig not in known:
             ops = shrink(replay, gc, ops, clause)
         res = replay(gc, ops)
-        ctx.finding(sig, f"provisioner violates clause {clause} (in {clause_count[clause]} of {len(cases)} histories)",
+        ctx.finding(sig, f"provisioner violates clause {clause} (in {clause_count[clause]} of {tot['cases']} histories)",
                     {"gc": gc, "ops": ";".join(",".join(b) if b else "-" for b in ops),
                      "replay_cmd": "harness/cmd/c18 -ops '<gc>=<ops>' | ngfdriver_C18 judge (J part)",
                      "judge_verdict": res[0] if res else None,
                      "cluster_listings": (res[1]["J"] if res else c["J"])[:6000]})
 
-    # ---- correspondence: faithful model (or its repaired variant) predicts every observation
-    outs = ctx.driver("model", [c["M"] for c in cases])
-    diffs, matched_fixed, matched_both = 0, 0, 0
-    for c, out in zip(cases, outs):
-        if out == "bad-op":
-            ctx.broken("model cannot decode the harness history", replay={"model_input": c["M"][:2000]})
-            diffs += 1
-            continue
-        faithful, fixed = out.split(" ## ")
-        d = _diff(c["O"], faithful)
-        if d is None:
-            if faithful == fixed:
-                matched_both += 1
-            continue
-        if _diff(c["O"], fixed) is None:
-            matched_fixed += 1
-            continue
-        diffs += 1
-        if diffs <= 3:
-            i, k = d
-            ob, mb = c["O"].split(";"), faithful.split(";")
-            ctx.broken(f"model and implementation disagree at batch {i} field {k} of history [{c['H']}]",
-                       replay={"ops": c["H"], "gc": c["M"].split(" ")[0][3:], "batch": i, "field": k,
-                               "impl": _fields(ob[i]).get(k) if i < len(ob) else None,
-                               "model": _fields(mb[i]).get(k) if i < len(mb) else None})
-    if matched_fixed:
-        ctx.log(f"{matched_fixed} histories match only the REPAIRED model variant (class-change removal present upstream?)")
-        if "C18:deployment-kept-after-class-change" in known and "deployment-kept-after-class-change" not in clause_count:
-            ctx.notes.append("repaired variant matched; known finding no longer reproduces")
+    diffs, matched_prefix, matched_both = tot["diffs"], tot["prefix"], tot["both"]
+    if matched_prefix and "deployment-kept-after-class-change" not in clause_count:
+        # cannot happen while the judge states the property (the variants differ only where a Deployment outlives a
+        # class change), kept so that the regression is never reported without its signature
+        c = prefix_case[0]
+        ctx.finding("C18:deployment-kept-after-class-change",
+                    f"the handler behaves like the removal loop before bb91ad6 on {matched_prefix} histories",
+                    {"gc": c["M"].split(" ")[0][3:], "ops": c["H"], "cluster_listings": c["J"][:6000]})
+    if matched_prefix:
+        ctx.log(f"{matched_prefix} histories match only the PRE-FIX model variant (regression of bb91ad6)")
 
     try:
         import shutil
@@ -163,22 +205,23 @@ def run(ctx):
     except Exception:
         pass
 
-    distinct = {c["H"] + "|" + c["M"].split(" ")[0] for c in cases}
-    nontrivial = {c["H"] for c in cases if c["O"].count(";") >= 2 and "nginx-gateway-2" in c["O"]}
     ctx.finish({
-        "evaluations": len(cases),
+        "evaluations": tot["cases"],
         "distinct_nontrivial": len(nontrivial),
-        "rule": "histories of create/update(class change)/delete/re-create of <=4 Gateways and 3 GatewayClasses in random "
-                "batches against the real eventHandler + fake client + real status.Updater; every batch compared with the Lean "
+        "rule": "corpus + ALL op histories up to length 3 (quick) / 5 (thorough) over 2 Gateways x 2 classes and 2 GatewayClasses "
+                "(singleton batches and one big batch) + random histories of create/update(class change)/delete/re-create of <=4 "
+                "Gateways and 3 GatewayClasses in random batches against the real eventHandler + fake client + real status.Updater; every batch compared with the Lean "
                 "model (provisions, Deployments with args, statuses, store, next id, panic) and judged; non-trivial = distinct "
                 "op histories with at least 3 batches in which at least two Deployments were created",
-        "samples": [c["H"] for c in cases[n_corpus:n_corpus + 3]] + [c["H"] for c in cases[:2]],
-        "traces_validated_against_impl": len(cases) - diffs,
+        "samples": samples,
+        "traces_validated_against_impl": tot["cases"] - diffs,
         "correspondence_diffs": diffs,
-        "matched_only_repaired_variant": matched_fixed,
+        "matched_only_prefix_variant(regression)": matched_prefix,
         "histories_where_variants_coincide": matched_both,
         "distinct_cases": len(distinct),
-        "corpus_cases": n_corpus,
+        "corpus_cases": tot.get("corpus", 0),
+        "exhaustive_small_scope_cases": tot.get("exhaustive", 0),
+        "generated_cases": tot.get("generated", 0),
         "judge_clause_histogram": dict(clause_count),
         "generator": {k: (dict(v) if isinstance(v, dict) else v) for k, v in hstats.items()},
         "other": dict(stats),
